@@ -968,12 +968,24 @@ def run(rep):
     for c, m, why in inconsistent[:3]:
         rep.violation("model-consistency", {"case": c, "model": m, "why": why},
                       "extracted model contradicts its own theorems/labels (%s)" % why, True)
-    for msg, g, x in cbad[:3]:
-        # does the disagreement break the property's own reading? (class names of the three demanded classes)
-        rep.violation("classify", {"message": msg, "impl": g, "model": x,
-                                   "broken": "correspondence Model.classify/build_err = error_handling.cpp"},
-                      "classify_runtime_error/build_result_err and the proved model disagree on message %r: impl %r model %r" % (msg, g, x),
-                      no_failing_input=False)
+    if cbad:
+        # the property's own reading: the three texts the evaluator raises must be named by their class
+        core = {"Division by zero": "DivisionByZeroError", "Array index out of bounds": "IndexOutOfBoundsError",
+                "Null pointer dereference": "NullPointerError"}
+        rc, o, e = common.sh([leaf], input=("".join("%s %s\n" % (t, m) for m in core for t in "TC")).encode(), timeout=60)
+        got = o.split("\n")[:-1]
+        broken_core = [(m, t, g) for (m, t), g in zip([(m, t) for m in core for t in "TC"], got)
+                       if not g.split("|")[3].startswith(core[m] + ": ")]
+        for m, t, g in broken_core[:2]:
+            rep.violation("classify-core", {"message": m, "checked": t == "C", "impl": g, "demanded_class": core[m],
+                                            "program": "Result<int, RuntimeError> g(int a, int b) { return %s (...); } raising %r" % (
+                                                "checked" if t == "C" else "try", m)},
+                          "try/checked names the wrong class for the evaluator's own error text %r: %r (demanded %s)" % (m, g, core[m]))
+        for msg, g, x in cbad[:3]:
+            rep.violation("classify", {"message": msg, "impl": g, "model": x, "core_messages_still_classified": not broken_core,
+                                       "broken": "correspondence Model.classify/build_err = error_handling.cpp (carrier of try_err_class / classify_order)"},
+                          "classify_runtime_error/build_result_err and the proved model disagree on message %r: impl %r model %r" % (msg, g, x),
+                          no_failing_input=not (msg in core and not g.split("|")[3].startswith(core[msg] + ": ")))
     rep.coverage["classify_disagreements"] = len(cbad)
 
     def spec_fail(i, m):
